@@ -129,7 +129,7 @@ func setExhaustive(step string, v bool) {
 
 func flushStats() {
 	path := os.Getenv("VERIF_STATS")
-	if path == "" {
+	if path == "" || os.Getenv("VERIF_FUZZ") != "" {
 		return
 	}
 	statsMu.Lock()
